@@ -24,6 +24,7 @@ func main() {
 	list := flag.Bool("list", false, "list implemented properties")
 	nomut := flag.Bool("no-selftest", false, "thorough: skip the mutant self-test")
 	onlymut := flag.Bool("selftest-only", false, "only replay the stored mutants of the property and print the results")
+	all := flag.Bool("all", false, "run every implemented property on one load of the tree (evidence goes to -verif; exit 1 if any fails)")
 	flag.Parse()
 	if *list {
 		for _, id := range props.IDs() {
@@ -42,6 +43,9 @@ func main() {
 		*verif = filepath.Dir(filepath.Dir(exe))
 	}
 	seed, _ := strconv.Atoi(os.Getenv("VERIF_SEED"))
+	if *all {
+		os.Exit(runAll(*repo, *verif, *tier, seed))
+	}
 	check := props.Get(*prop)
 	if check == nil {
 		fmt.Fprintf(os.Stderr, "unknown property %q\n", *prop)
@@ -89,4 +93,34 @@ func runOne(repo, arch, prop, tier string, check props.Check) (r *an.R) {
 	}()
 	check(p, r, tier)
 	return r
+}
+
+func runAll(repo, verif, tier string, seed int) int {
+	findings, err := an.LoadFindings(filepath.Join(verif, "known_findings.json"))
+	if err != nil {
+		fmt.Fprintf(os.Stderr, "known_findings.json: %v\n", err)
+		return 2
+	}
+	p, err := an.Load(repo, "")
+	if err != nil {
+		fmt.Printf("LOAD FAILED: %v\n", err)
+		return 1
+	}
+	code := 0
+	for _, id := range props.IDs() {
+		start := time.Now()
+		r := an.NewR(p, id)
+		func() {
+			defer func() {
+				if e := recover(); e != nil {
+					r.Und("analyser-panic", fmt.Sprint(e), 0, string(debug.Stack()))
+				}
+			}()
+			props.Get(id)(p, r, tier)
+		}()
+		if an.Finish(id, tier, seed, []*an.R{r}, findings, verif, start, nil) != 0 {
+			code = 1
+		}
+	}
+	return code
 }
